@@ -60,12 +60,15 @@ class Execution:
         self.obs = obs
 
 
-def dfs(run, on_execution, bound=None, max_executions=None):
+def dfs(run, on_execution, bound=None, max_executions=None, part=None):
     """run(prefix) -> Execution. Explores every choice sequence whose number of deviations
     (non-default choices at points with cost 1) is <= bound (None = unbounded).
+    part=(k, m): of the branches that leave the default execution, only every m-th one starting at the k-th is followed, so
+    that m calls with k = 0..m-1 cover the whole tree between them (the default execution is run by each).
     Returns (executions, capped)."""
     stack = [[]]
     n = 0
+    nth = -1
     while stack:
         prefix = stack.pop()
         x = run(prefix)
@@ -92,6 +95,10 @@ def dfs(run, on_execution, bound=None, max_executions=None):
             if bound is not None and costs[i] + cost > bound:
                 continue
             for alt in range(fan - 1, 0, -1):
+                if part is not None and not prefix:
+                    nth += 1
+                    if nth % part[1] != part[0]:
+                        continue
                 stack.append(x.choices[:i] + [alt])
     return n, False
 
